@@ -48,6 +48,8 @@ def relation(n, a, b):
         return "a-ancestor-of-b"
     if n[a - 1]["p"] and n[a - 1]["p"] == n[b - 1]["p"]:
         c = n[n[a - 1]["p"] - 1]["c"]
+        if a not in c or b not in c:
+            return "inconsistent"      # (a projected forest the crate has corrupted: classification only, the judge reports it)
         d = c.index(b) - c.index(a)
         return "next-sib" if d == 1 else "prev-sib" if d == -1 else "sibling"
     if aa[-1] == ab[-1]:
@@ -62,7 +64,10 @@ def event_class(lines, idx):
     pre = json.loads(lines[idx - ev["back"]])["post"]["n"]
     a = ev["a"]
     kinds = tuple(pre[x - 1]["k"] if 0 < x <= len(pre) else "?" for x in a)
-    rel = relation(pre, a[0], a[1]) if len(a) == 2 and all(0 < x <= len(pre) for x in a) else ""
+    try:
+        rel = relation(pre, a[0], a[1]) if len(a) == 2 and all(0 < x <= len(pre) for x in a) else ""
+    except (ValueError, IndexError, KeyError):
+        rel = "inconsistent"
     return (ev["op"], ev["res"], kinds, rel)
 
 
@@ -664,6 +669,14 @@ def parser_jobs(prop, tier, seed):
         for rep in range(1 if quick else 6):
             add("frag", X.render_doc(fr, X.RandomChooser(rnd), "frag"), "yes", ids=[], encs=[])
             counts["enumerated"] += 1
+    # fragments whose top-level character data is white space only, or starts / ends with it (content like any other)
+    E0 = lambda ln, kids=(): {"ns": "", "ln": ln, "decls": [], "attrs": [], "kids": list(kids)}
+    for kids in ([("text", [32]), E0("a")], [E0("a"), ("text", [10])], [("text", [9]), E0("a"), ("text", [32, 10]), E0("b"), ("text", [32])],
+                 [("comm", [120]), ("text", [32]), E0("a")], [("text", [10, 32, 32]), ("pi", "pa", None), ("text", [10])], [("text", [32, 120]), E0("a", [("text", [32])]), ("text", [120, 32])],
+                 [("text", [32])], [("text", [13])]):
+        for rep in range(2 if quick else 10):
+            add("frag", X.render_doc({"kids": list(kids)}, X.RandomChooser(rnd) if rep else X.CanonChooser(rnd, set()), "frag"), "yes", ids=[], encs=[])
+            counts["enumerated"] += 1
     # one value, one special piece: the value "u v" with its space written as SP / TAB / LF / CR / CR LF and everything else
     # literal (or exactly one character reference next to it) - as an attribute, a prefixed declaration, a default
     # declaration and an xml:id.  What a "nothing to decode in this value" shortcut gets to see, each case exactly once.
@@ -1009,6 +1022,31 @@ def ser_check(prop, tier, seed):
         j.update(ser_params(rnd, prop, counts["random"]))
         jobs.append(j)
         counts["random"] += 1
+    # namespace names that need escaping, as the DEFAULT declaration and under a prefix, with names living in them; and one
+    # document whose xml:id values carry every kind of white space at their edges (only #x20 is not part of an ID)
+    for uri in ("http://x?a=1&b=2", "u\"q", "u v", "a<b", "t\tb", "l\nf", "c\rr", "u&amp;v"):
+        for px in ("", "p"):
+            ff = gen.Forest(True)
+            top = ff.add(gen.node("doc"))
+            e = ff.add(gen.node("elem", ns=uri, ln="a"), top)
+            ff.add(gen.node("nsn", ln=px, u=uri), e)
+            if px:
+                ff.add(gen.node("attr", ns=uri, ln="k", t=gen.cps("v")), e)
+            ff.add(gen.node("elem", ns=uri, ln="b"), e)
+            j = {"st": ff.state(), "root": 1, "frag": False, "what": what}
+            j.update(ser_params(rnd, prop, counts["random"]))
+            jobs.append(j)
+            counts["random"] += 1
+    ff = gen.Forest(True)
+    top = ff.add(gen.node("doc"))
+    e = ff.add(gen.node("elem", ln="a"), top)
+    for v in ("i1", "\u00a0i6", "i7\u3000", "\ti4", "i5\r", "a\tb", "\ni8", "\u2003i9\u2003", "x y"):
+        c = ff.add(gen.node("elem", ln="b"), e)
+        ff.add(gen.node("attr", ns=gen.XMLNS, ln="id", t=gen.cps(v)), c)
+    j = {"st": ff.state(), "root": 1, "frag": False, "what": what}
+    j.update(ser_params(rnd, prop, counts["random"]))
+    jobs.append(j)
+    counts["random"] += 1
     # fragments whose top level mixes elements, comments and PIs with character data that is white space only (a fragment
     # keeps it: it is content like any other) or starts / ends with white space
     for k in range(60 if quick else 1500):
